@@ -123,7 +123,9 @@ func localToQid(_ string, fi os.FileInfo) (uint64, error) {
 	if q, ok := encodeLikely(uint64(stat.Dev), stat.Ino); ok {
 		return q, nil
 	}
-	di := &devino{uint64(stat.Dev), stat.Ino}
+	// The key has to be the value, not a pointer to it: a fresh pointer is
+	// never found again, so every lookup would mint a new path.
+	di := devino{uint64(stat.Dev), stat.Ino}
 	if q, ok := qids.Load(di); ok {
 		return q.(uint64), nil
 	}
